@@ -30,9 +30,64 @@ def is_boolish(v):
     return isinstance(v, bool) or (is_sym(v) and z3.is_bool(v))
 
 
+class XR:
+    """A float that may be NaN: (v, nan).  `v` is the real value when `nan` is false and is
+    meaningless otherwise.  Arithmetic propagates the flag (IEEE), every ordered comparison and
+    `==` with a NaN operand is false, `!=` is true.  Infinities are not modelled.  Only values that
+    can actually be NaN are represented this way (np.nan stores, arrays declared 'xreal')."""
+    __slots__ = ("v", "nan")
+
+    def __init__(self, v, nan):
+        self.v, self.nan = v, nan
+
+    def __repr__(self):
+        return f"XR({self.v}, nan={self.nan})"
+
+
+def xr(v, nan):
+    """smart constructor: a value that is certainly not NaN stays a plain term"""
+    if isinstance(v, XR):
+        v, nan = v.v, lor(v.nan, nan)
+    if isinstance(nan, bool) and not nan:
+        return v
+    if is_sym(nan):
+        nan = z3.simplify(nan)
+        if z3.is_false(nan):
+            return v
+        if z3.is_true(nan):
+            nan = True
+    return XR(v, nan)
+
+
+def xval(a):
+    return a.v if isinstance(a, XR) else a
+
+
+def xnan(a):
+    return a.nan if isinstance(a, XR) else False
+
+
+def _xlift(fn, *ops):
+    return xr(fn(*[xval(o) for o in ops]), lor(*[xnan(o) for o in ops]))
+
+
+def _anyx(*ops):
+    for o in ops:
+        if isinstance(o, XR):
+            return True
+    return False
+
+
+def is_val(v):
+    """number, boolean or NaN-able number"""
+    return is_num(v) or is_boolish(v) or isinstance(v, XR)
+
+
 def to_z3(v):
     if is_sym(v):
         return v
+    if isinstance(v, XR):
+        raise Unsupported("possibly-NaN value used where a real number is required")
     if isinstance(v, bool):
         return z3.BoolVal(v)
     if isinstance(v, int):
@@ -47,6 +102,8 @@ def to_z3(v):
 
 
 def to_real(v):
+    if isinstance(v, int) and not isinstance(v, bool):
+        return z3.RealVal(v)
     v = to_z3(v) if not is_sym(v) else v
     if z3.is_int(v):
         return z3.ToReal(v)
@@ -79,6 +136,8 @@ def _b2n(v):
 
 
 def add(a, b):
+    if _anyx(a, b):
+        return _xlift(add, a, b)
     a, b = _b2n(a), _b2n(b)
     if is_conc_num(a) and is_conc_num(b):
         return a + b
@@ -90,6 +149,8 @@ def add(a, b):
 
 
 def sub(a, b):
+    if _anyx(a, b):
+        return _xlift(sub, a, b)
     a, b = _b2n(a), _b2n(b)
     if is_conc_num(a) and is_conc_num(b):
         return a - b
@@ -99,6 +160,8 @@ def sub(a, b):
 
 
 def mul(a, b):
+    if _anyx(a, b):
+        return _xlift(mul, a, b)
     a, b = _b2n(a), _b2n(b)
     if is_conc_num(a) and is_conc_num(b):
         return a * b
@@ -113,6 +176,8 @@ def mul(a, b):
 
 
 def neg(a):
+    if isinstance(a, XR):
+        return _xlift(neg, a)
     a = _b2n(a)
     if is_conc_num(a):
         return -a
@@ -120,6 +185,8 @@ def neg(a):
 
 
 def div(a, b):
+    if _anyx(a, b):
+        return _xlift(div, a, b)
     a, b = _b2n(a), _b2n(b)
     if is_conc_num(a) and is_conc_num(b):
         if b == 0:
@@ -135,6 +202,8 @@ def _is_intlike(v):
 
 
 def floordiv(a, b):
+    if _anyx(a, b):
+        return _xlift(floordiv, a, b)
     a, b = _b2n(a), _b2n(b)
     if is_conc_num(a) and is_conc_num(b):
         return a // b if isinstance(a, int) and isinstance(b, int) else Fraction((a // b))
@@ -149,21 +218,58 @@ def floordiv(a, b):
     return z3.ToReal(z3.ToInt(to_real(a) / to_real(b)))
 
 
+_ARITH_KINDS = None
+
+
+def _first_ite_under_arith(t):
+    """an if-then-else sub-term of t that is reached through arithmetic operators only"""
+    global _ARITH_KINDS
+    if _ARITH_KINDS is None:
+        _ARITH_KINDS = {z3.Z3_OP_ADD, z3.Z3_OP_SUB, z3.Z3_OP_MUL, z3.Z3_OP_DIV, z3.Z3_OP_UMINUS, z3.Z3_OP_TO_REAL}
+    stack = [t]
+    while stack:
+        x = stack.pop()
+        if not z3.is_app(x):
+            continue
+        k = x.decl().kind()
+        if k == z3.Z3_OP_ITE:
+            return x
+        if k in _ARITH_KINDS:
+            stack.extend(x.children())
+    return None
+
+
+def lift_ite(t, fn, budget=24):
+    """fn applied below the conditionals of t:  fn(ite(c, a, b) + d)  ->  ite(c, fn(a + d), fn(b + d)).
+    Same value; keeps to_int / modulo arguments free of if-then-else, which the solvers handle much better."""
+    if not is_sym(t) or budget <= 1:
+        return fn(t)
+    it = _first_ite_under_arith(t)
+    if it is None:
+        return fn(t)
+    c, a, b = it.children()
+    half = budget // 2
+    return ite(c, lift_ite(z3.substitute(t, (it, a)), fn, half), lift_ite(z3.substitute(t, (it, b)), fn, half))
+
+
 def mod(a, b):
+    if _anyx(a, b):
+        return _xlift(mod, a, b)
     a, b = _b2n(a), _b2n(b)
     if is_conc_num(a) and is_conc_num(b):
         return a % b
     if _is_intlike(a) and _is_intlike(b):
         return sub(a, mul(b, floordiv(a, b)))
-    ra, rb = to_real(a), to_real(b)
-    k = z3.ToInt(ra / rb)
-    return ra - rb * z3.ToReal(k)
+    rb = to_real(b)
+    return lift_ite(to_real(a), lambda ra: ra - rb * z3.ToReal(z3.ToInt(ra / rb)))
 
 
 WRAPS = []  # (period term, integer term k) of every real modulo built in this process
 
 
 def absv(a):
+    if isinstance(a, XR):
+        return _xlift(absv, a)
     a = _b2n(a)
     if is_conc_num(a):
         return abs(a)
@@ -171,6 +277,8 @@ def absv(a):
 
 
 def power(a, b):
+    if _anyx(a, b):
+        return _xlift(power, a, b)
     a, b = _b2n(a), _b2n(b)
     if isinstance(b, Fraction) and b.denominator == 1:
         b = int(b)
@@ -199,6 +307,10 @@ def _is_inf(v):
 
 
 def cmp(op, a, b):
+    if _anyx(a, b):
+        c = cmp(op, xval(a), xval(b))
+        anyn = lor(xnan(a), xnan(b))
+        return lor(anyn, c) if op == "!=" else land(lnot(anyn), c)
     # np.inf: every other real of the model is finite (assumption, DESIGN §2.3)
     if _is_inf(a) or _is_inf(b):
         if _is_inf(a) and _is_inf(b):
@@ -227,6 +339,8 @@ def cmp(op, a, b):
 def ite(c, a, b):
     if isinstance(c, bool):
         return a if c else b
+    if _anyx(a, b):
+        return xr(ite(c, xval(a), xval(b)), ite(c, xnan(a), xnan(b)))
     if a is b:
         return a
     if not is_sym(a) and not is_sym(b):
@@ -286,6 +400,7 @@ def implies(a, b):
 # --------------------------------------------------------------------------- theory
 PI = z3.Real("pi")
 INF = z3.Real("inf_")  # np.inf: an opaque value; only (dis)equality with it is meaningful
+NAN = XR(Fraction(0), True)  # np.nan
 UF1 = {n: z3.Function("u_" + n, RealS, RealS) for n in
        ("exp", "log", "sqrt", "sin", "cos", "tan", "tanh", "sinh", "cosh", "arctan",
         "arcsin", "arccos")}
@@ -293,6 +408,8 @@ UF2 = {n: z3.Function("u_" + n, RealS, RealS, RealS) for n in ("arctan2", "powr"
 
 
 def uf(name, a):
+    if isinstance(a, XR):
+        return xr(uf(name, a.v), a.nan)
     a = _b2n(a)
     if name == "sqrt" and is_conc_num(a):
         # exact rational square roots stay concrete
@@ -313,6 +430,8 @@ def uf(name, a):
 
 
 def uf2(name, a, b):
+    if _anyx(a, b):
+        return xr(uf2(name, xval(a), xval(b)), lor(xnan(a), xnan(b)))
     return UF2[name](to_real(a), to_real(b))
 
 
@@ -600,6 +719,7 @@ def defined_function_ids():
 def ext_axioms(terms):
     """witness and bound axioms for max/min applications (ground apps only)"""
     ax = []
+    firsts = {}
     for x in ground_subterms(terms).values():
         if z3.is_app(x) and x.decl().get_id() in ExtDef.registry:
             d = ExtDef.registry[x.decl().get_id()]
@@ -616,6 +736,7 @@ def ext_axioms(terms):
             ax.append(z3.And(x >= lo, z3.Implies(hi >= lo, x <= hi), z3.Implies(hi < lo, x == lo)))
             ax.append(z3.ForAll([j], z3.Implies(z3.And(lo <= j, j < x), z3.Not(d.body_at(x, j)))))
             ax.append(z3.Implies(x < hi, d.body_at(x, x)))
+            firsts.setdefault(x.decl().get_id(), []).append(x)
         elif z3.is_app(x) and x.decl().get_id() in ArgmaxDef.registry:
             d = ArgmaxDef.registry[x.decl().get_id()]
             lo, hi = x.arg(0), x.arg(1)
@@ -625,6 +746,14 @@ def ext_axioms(terms):
                 lo <= x, x < hi, d.at(d.valid, x, x),
                 z3.ForAll([j], z3.Implies(z3.And(lo <= j, j < hi, d.at(d.valid, x, j)), d.at(d.body, x, j) <= d.at(d.body, x, x))),
                 z3.ForAll([j], z3.Implies(z3.And(lo <= j, j < x, d.at(d.valid, x, j)), d.at(d.body, x, j) < d.at(d.body, x, x))))))
+    # ground instances of the minimality axiom of one First application at another application of the
+    # same definition (what is needed to show that two searches return the same index)
+    for apps in firsts.values():
+        for x in apps[:6]:
+            d = FirstDef.registry[x.decl().get_id()]
+            for y in apps[:6]:
+                if y is not x:
+                    ax.append(z3.Implies(z3.And(x.arg(0) <= y, y < x), z3.Not(d.body_at(x, y))))
     return ax
 
 
@@ -814,6 +943,7 @@ def subst_deep(t, const_map=(), func_map=()):
 
 # --------------------------------------------------------------------------- nonlinear abstraction
 MULF = z3.Function("mul_abs", RealS, RealS, RealS)
+MULFI = z3.Function("mul_abs_i", IntS, IntS, IntS)
 DIVF = z3.Function("div_abs", RealS, RealS, RealS)
 
 
@@ -849,6 +979,16 @@ def _abstract_nonlinear(fs):
             ch = [rb(c) for c in t.children()]
             kind = t.decl().kind()
             if kind == z3.Z3_OP_MUL:
+                if z3.is_int(t) and all(z3.is_int(c) for c in ch) and sum(1 for c in ch if not isnum(c)) >= 2:
+                    nums = [c for c in ch if isnum(c)]
+                    rest = [c for c in ch if not isnum(c)]
+                    acc = rest[0]
+                    for c in rest[1:]:
+                        acc = MULFI(acc, c)
+                    for nn in nums:
+                        acc = nn * acc
+                    memo[k] = acc
+                    return acc
                 # flatten nested products and order the factors canonically (hash-consed ids): a*(b*c),
                 # (c*a)*b, ... all become the same application
                 flat, work = [], list(t.children())
@@ -913,7 +1053,11 @@ def _abstract_nonlinear(fs):
                 extra += [z3.Implies(z3.And(a >= 0, b > 0), t >= 0), z3.Implies(z3.And(a <= 0, b > 0), t <= 0),
                           z3.Implies(z3.And(a >= 0, b < 0), t <= 0), z3.Implies(z3.And(a <= 0, b < 0), t >= 0),
                           z3.Implies(z3.And(a > 0, b > 0), t > 0), z3.Implies(a == 0, t == 0),
-                          z3.Implies(b == 1, t == a)]
+                          z3.Implies(b == 1, t == a),
+                          # comparison of a quotient with one (b > 0)
+                          z3.Implies(z3.And(b > 0, a < b), t < 1), z3.Implies(z3.And(b > 0, a <= b), t <= 1),
+                          z3.Implies(z3.And(b > 0, a > b), t > 1), z3.Implies(z3.And(b > 0, a >= b), t >= 1),
+                          z3.Implies(z3.And(b != 0, a == b), t == 1)]
                 for c in numerals:
                     extra += [z3.Implies(b > 0, z3.And((t < c) == (a < c * b), (t <= c) == (a <= c * b))),
                               z3.Implies(b < 0, z3.And((t < c) == (a > c * b), (t <= c) == (a >= c * b)))]
@@ -921,6 +1065,79 @@ def _abstract_nonlinear(fs):
                 continue
             _signed.add(t.get_id())
         out += extra
+    return out
+
+
+def quantifier_free(f):
+    for x in subterms(f).values():
+        if z3.is_quantifier(x):
+            return False
+    return True
+
+
+def _hoist_forall(f):
+    """f as a list of conjuncts in which universally quantified parts in positive position are at the top:
+    A -> forall k. B   becomes   forall k. (A -> B);   conjunctions are split.  (equivalences)"""
+    if z3.is_and(f):
+        out = []
+        for c in f.children():
+            out.extend(_hoist_forall(c))
+        return out
+    if z3.is_app(f) and f.decl().kind() == z3.Z3_OP_ITE and z3.is_bool(f):
+        c, a, b = f.children()
+        return _hoist_forall(z3.Implies(c, a)) + _hoist_forall(z3.Implies(z3.Not(c), b))
+    if z3.is_implies(f):
+        a, b = f.arg(0), f.arg(1)
+        out = []
+        for g in _hoist_forall(b):
+            if z3.is_quantifier(g) and g.is_forall():
+                n = g.num_vars()
+                cs = [z3.Const(Fresh.name("hq"), g.var_sort(i)) for i in range(n)]
+                body = z3.substitute_vars(g.body(), *reversed(cs))
+                out.append(z3.ForAll(cs, z3.Implies(a, body)))
+            else:
+                out.append(z3.Implies(a, g))
+        return out
+    return [f]
+
+
+def instantiate_hoisted(fs, cap=2500, rounds=3):
+    """Ground instances of the universally quantified formulas in `fs` at the integer index terms
+    that occur as arguments of array / function applications (sound: instances of hypotheses).
+    Nested quantifiers (forall i. A -> forall j. B) are hoisted and instantiated in later rounds."""
+    idx = {}
+    for t in ground_subterms(fs).values():
+        if z3.is_app(t) and t.num_args() > 0 and t.decl().kind() == z3.Z3_OP_UNINTERPRETED:
+            for a in t.children():
+                if z3.is_int(a):
+                    idx[a.get_id()] = a
+    terms = list(idx.values())
+    out = []
+    todo = []
+    for f in fs:
+        todo.extend(g for g in _hoist_forall(f) if z3.is_quantifier(g) and g.is_forall())
+    for _ in range(rounds):
+        nxt = []
+        for f in todo:
+            n = f.num_vars()
+            if n > 2 or any(f.var_sort(i) != IntS for i in range(n)):
+                continue
+            body = f.body()
+            if n == 1:
+                insts = [z3.substitute_vars(body, t) for t in terms]
+            else:
+                small = terms[:12]
+                insts = [z3.substitute_vars(body, t1, t2) for t1 in small for t2 in small]
+            for inst in insts:
+                for g in _hoist_forall(inst):
+                    out.append(g)
+                    if z3.is_quantifier(g) and g.is_forall():
+                        nxt.append(g)
+                if len(out) >= cap:
+                    return out
+        todo = nxt
+        if not todo:
+            break
     return out
 
 
